@@ -18,17 +18,28 @@ def gen_history(rng, tier):
         # times (limits with two digits included: archive names do not sort like their numbers), a few deletions in between
         lim = rng.choice([2, 3, 4, 10, 11, 12, 20])
         ops = []
+        foreign = rng.random() < 0.35
         for _ in range(lim + rng.randint(2, 6)):
             ops.append(["run", lim])
             if rng.random() < 0.08:
-                ops.append(["delete", rng.randint(1, lim + 1)])
+                k = rng.randint(1, lim + 1)
+                ops.append(["delete", k])
+                if foreign:       # the archive was packed / renamed rather than deleted: its slot is free, its name is still around
+                    ops.append(["foreign", "report-%d%s" % (k, rng.choice([".tar.gz", "-keep"])), rng.choice(["file", "dir"])])
         return ops
     n = rng.choice([3, 6, 10, 16, 24] if tier == "quick" else [3, 6, 10, 16, 24, 30, 45])
     fixed = rng.random() < 0.7
     lim = rng.choice(LIMITS)
     ops = []
+    p_foreign = rng.choice([0.0, 0.0, 0.08, 0.15])
     for _ in range(n):
-        if rng.random() < 0.72 or not ops:
+        if ops and rng.random() < p_foreign:
+            # an entry of reports/ that is NOT an archive slot although its name begins like one: a packed or renamed archive,
+            # notes (the rotation must neither count it as a slot nor touch it)
+            ops.append(["foreign", "report-%d%s" % (rng.choice([1, 1, 2, 2, 3, 4, 10, 20]),
+                                                   rng.choice([".tar.gz", "-keep", ".bak", "_old", " (copy)", "x", ".d"])),
+                        rng.choice(["file", "dir"])])
+        elif rng.random() < 0.72 or not ops:
             ops.append(["run", lim if fixed else rng.choice(LIMITS)])
         else:
             # manual deletion, biased towards archives that exist
@@ -51,9 +62,28 @@ def observe(top):
     ad = os.path.join(top, "reports")
     if os.path.isdir(ad):
         for name in os.listdir(ad):
+            if name in FOREIGN_SEEN:
+                continue
             assert name.startswith("report-"), name
             arch.append([int(name[len("report-"):]), read_marker(os.path.join(ad, name))])
     return [cur, sorted(arch)]
+
+
+FOREIGN_SEEN = set()      # names of the foreign entries of the history being run
+
+
+def foreign_state(top, names):
+    """What is left of the foreign entries: name -> content ('<missing>' when gone)."""
+    res = {}
+    for n in sorted(names):
+        p = os.path.join(top, "reports", n)
+        if os.path.isdir(p):
+            res[n] = "dir:%s" % read_marker(p)
+        elif os.path.isfile(p):
+            res[n] = "file:" + open(p).read()
+        else:
+            res[n] = "<missing>"
+    return res
 
 
 def run_history(ops, via_project=False):
@@ -64,8 +94,27 @@ def run_history(ops, via_project=False):
     top = tempfile.mkdtemp(prefix="lccverif_c19_")
     obs, facts = [], []
     nxt = 0
+    FOREIGN_SEEN.clear()
+    FOREIGN_SEEN.update(op[1] for op in ops if op[0] == "foreign")
+    made = {}
     try:
         for op in ops:
+            if op[0] == "foreign":
+                os.makedirs(os.path.join(top, "reports"), exist_ok=True)
+                p = os.path.join(top, "reports", op[1])
+                if op[1] not in made:
+                    if op[2] == "dir":
+                        os.mkdir(p)
+                        with open(os.path.join(p, "marker"), "w") as f:
+                            f.write("777")
+                        made[op[1]] = "dir:777"
+                    else:
+                        with open(p, "w") as f:
+                            f.write("packed")
+                        made[op[1]] = "file:packed"
+                facts.append({"foreign": dict(made), "foreign_now": foreign_state(top, made)})
+                obs.append(observe(top))
+                continue
             if op[0] == "run":
                 try:
                     if via_project and op[1] == 20:
@@ -76,13 +125,14 @@ def run_history(ops, via_project=False):
                     obs.append(["exception", type(e).__name__, str(e)[:200]])
                     facts.append({"exception": type(e).__name__})
                     break
-                facts.append({"new_dir_empty": os.listdir(d) == [], "dir_is_report": os.path.realpath(d) == os.path.realpath(os.path.join(top, "report"))})
+                facts.append({"new_dir_empty": os.listdir(d) == [], "dir_is_report": os.path.realpath(d) == os.path.realpath(os.path.join(top, "report")),
+                              "foreign": dict(made), "foreign_now": foreign_state(top, made)})
                 with open(os.path.join(d, "marker"), "w") as f:
                     f.write(str(nxt))
                 nxt += 1
             else:
                 shutil.rmtree(os.path.join(top, "reports", "report-%d" % op[1]), ignore_errors=True)
-                facts.append({})
+                facts.append({"foreign": dict(made), "foreign_now": foreign_state(top, made)})
             obs.append(observe(top))
     finally:
         shutil.rmtree(top, ignore_errors=True)
@@ -102,7 +152,13 @@ def oracle(ops, obs, facts):
             return ("exception:" + o[1], "rotation raised %s: %s" % (o[1], o[2]), i)
         cur, arch = o
         pcur, parch = prev
-        if op[0] == "delete":
+        if facts[i].get("foreign") != facts[i].get("foreign_now"):
+            return ("foreign-entry-touched", "an entry of reports/ that is not an archive slot was removed or changed: %s -> %s" % (
+                facts[i].get("foreign"), facts[i].get("foreign_now")), i)
+        if op[0] == "foreign":
+            if cur != pcur or arch != parch:
+                return ("foreign-entry-changed-archives", "creating %s changed the report or an archive" % op[1], i)
+        elif op[0] == "delete":
             want = [a for a in parch if a[0] != op[1]]
             if cur != pcur or arch != want:
                 return ("delete-not-exact", "deleting archive %d changed something else" % op[1], i)
@@ -178,6 +234,9 @@ Definition agrees (c : list op * list (option obs)) : bool :=
 
 
 def cases_file(cases):
+    # entries of reports/ that are not archive slots do not exist for the model: the ops that create them and the (unchanged)
+    # observations after them are left out
+    cases = [([op for op in ops if op[0] != "foreign"], [o for op, o in zip(ops, obs) if op[0] != "foreign"]) for ops, obs in cases]
     body = ";\n  ".join("(%s,\n   %s)" % (c_list(ops, c_op), c_list(obs, c_obs)) for ops, obs in cases)
     return HEADER + "Definition cases : list (list op * list (option obs)) := [\n  %s\n].\n" % body + \
         "Eval vm_compute in (find_indexes (fun c => negb (agrees c)) cases).\n"
@@ -202,6 +261,9 @@ def check(run):
         run.count("ops", len(ops))
         run.count("runs", sum(1 for o in ops if o[0] == "run"))
         run.count("deletes", sum(1 for o in ops if o[0] == "delete"))
+        run.count("foreign_entries", sum(1 for o in ops if o[0] == "foreign"))
+        if any(o[0] == "foreign" for o in ops):
+            run.count("histories_with_foreign_entries")
         # non-trivial: some run actually removed an archive, or rotated over a hole
         removed = any(ops[j][0] == "run" and j > 0 and isinstance(obs[j - 1][1], list) and
                       len(obs[j][1]) <= len(obs[j - 1][1]) and obs[j - 1][0] is not None
@@ -234,7 +296,7 @@ def check(run):
                 ops, obs = shards[k][idx]
                 small = ops if run.oracle_hits else shrink(ops[:12], lambda c: model_disagrees(run, c)) if model_disagrees(run, ops[:12]) else ops
                 run.tie_broken("exec_trace = observed directory listings", case=small, impl=run_history(small)[0])
-    run.coverage["rule"] = ("seeded random histories of run(limit)/delete(k), limits in {none,0,1,2,3,4,10,11,12,20}, 20% of the histories fill every slot of one limit and purge several times; every history is "
+    run.coverage["rule"] = ("seeded random histories of run(limit)/delete(k)/foreign(name) -- entries of reports/ named report-<k><suffix> (packed or renamed archives, files and directories) that are no archive slots --, limits in {none,0,1,2,3,4,10,11,12,20}, 20% of the histories fill every slot of one limit and purge several times; every history is "
                             "executed by the real create_report_dir_with_rotation (30% through Project.create_report_dir when "
                             "limit=20) on a scratch directory with marker files and by Model.ReportDir.exec_trace inside Coq; "
                             "non-trivial = a run that removed at least one archive")
